@@ -43,6 +43,25 @@ Proof.
     rewrite E1, !chain_through_wrappers; apply ctx_err_contains; discriminate.
 Qed.
 
+(* a retry handle run with a context of its own never looks at the context of the first attempt: whether a
+   step is possible and what it yields is the same whatever that context's state is *)
+Lemma cstep_ignores_original_context : forall tcl ccl wl rl a c x,
+  cstep tcl ccl wl rl a (set_ocx c x) =
+  match cstep tcl ccl wl rl a c with Some (c', e) => Some (set_ocx c' x, e) | None => None end.
+Proof.
+  intros tcl ccl wl rl a c x. unfold cstep.
+  change (active (set_ocx c x)) with (active c). change (rest (set_ocx c x)) with (rest c).
+  destruct (active c); cbn [negb]; [|reflexivity].
+  destruct (rest c) as [|ins rs]; [reflexivity|].
+  destruct ins, a; try reflexivity;
+    change (answers (set_ocx c x)) with (answers c); change (cx (set_ocx c x)) with (cx c);
+    change (ackready (set_ocx c x)) with (ackready c);
+    try (destruct wl; reflexivity); try (destruct (wl || rl); reflexivity);
+    try (destruct tcl; [reflexivity|destruct (answers c); reflexivity]);
+    try (destruct ccl; reflexivity); try (destruct (cx c); reflexivity);
+    try (destruct (ackready c); reflexivity); try (destruct tcl; reflexivity).
+Qed.
+
 (* ===================================================================================== *)
 (** * B. Basic facts about steps *)
 
